@@ -40,7 +40,11 @@ def lowerb(e):
 
 
 def _real(e):
-    return z3.ToReal(e) if e.is_int() else e
+    if e.is_int():
+        if z3.is_int_value(e):
+            return z3.RealVal(e.as_long())
+        return z3.ToReal(e)
+    return e
 
 
 class R:
@@ -199,6 +203,10 @@ class B:
         return "B(%s)" % (s if len(s) < 200 else s[:200] + "...")
 
 
+import os as _os
+SCALE = float(_os.environ.get("PYVC_TIMEOUT_SCALE", "1"))
+
+
 class DefSym:
     """a symbol with a definition the solver does not see (Sum, DTFT, ...)"""
 
@@ -292,7 +300,17 @@ class Z3Dom:
         q = _int_quotient(e)
         if q is not None:
             a, c = q            # e == a / c with a: Int term, c: positive int
+            k = self.known(B(a >= 0))
+            if k is True:
+                return lower(a / c)
+            if k is False:
+                return lower(-((-a) / c))
             return lower(z3.If(a >= 0, a / c, -((-a) / c)))
+        k = self.known(B(e >= 0))
+        if k is True:
+            return lower(z3.ToInt(e))
+        if k is False:
+            return lower(-z3.ToInt(-e))
         return lower(z3.If(e >= 0, z3.ToInt(e), -z3.ToInt(-e)))
 
     def floor(self, v):
@@ -742,6 +760,8 @@ class Z3Dom:
     def _check(self, s, timeout_ms):
         """check() with a watchdog: z3's own timeout is not honoured inside some tactics"""
         import threading
+        timeout_ms = int(timeout_ms * SCALE)
+        s.set("timeout", timeout_ms)
         ctx = z3.main_ctx()
         timer = threading.Timer(timeout_ms / 1000.0 + 1.0, ctx.interrupt)
         timer.start()
